@@ -71,8 +71,17 @@ RULE = ('a case is one history prefix (node of the enumeration tree) or one whol
         'up to symmetry (connections and names in order of first appearance); distinct = distinct token list; '
         'non-trivial = at least one name has an owner when the last operation runs')
 
-# 0, 1: the two names of the enumerations; 2, 3: differ from name 0 in case only / are a prefix of it
-NAMES = ['com.example.alpha', 'org.b.c2', 'Com.Example.Alpha', 'com.example']
+# 0, 1: the two names of the enumerations; 2, 3: differ from name 0 in case only / are a prefix of it;
+# 4: the bus's own name as a REQUESTED name (the built-in bus grants it - observed, not flagged, DESIGN section 13 -,
+#    GetNameOwner then names the requester; as the DESTINATION of a message it is the token `b`, never `n4`:
+#    such a message is answered by the bus and not forwarded, whoever holds the name)
+NAMES = ['com.example.alpha', 'org.b.c2', 'Com.Example.Alpha', 'com.example', 'org.freedesktop.DBus']
+BUSNAME_IDX = 4
+# match rules that match the messages `World.addressed` builds (token m<c>,<j>): a holder must still not receive
+# an addressed message (C14: "to the connection owning the destination name ... and to no other")
+EAVES = ["type='method_call',interface='com.example.Iface'",
+         "type='signal',interface='com.example.Iface',member='Poked'",
+         "type='error'", "type='method_return'", "interface='com.example.Iface'", "member='Frob'"]
 RULES = ["type='signal',interface='com.example.Nothing',member='Nope'",
          "type='signal',interface='org.freedesktop.DBus',member='NameOwnerChanged'"]
 # names that start with ':' but are not of the form ':1.<decimal without leading zero>' the bus hands out
@@ -84,7 +93,9 @@ PYEXC = 'org.txdbus.PythonException.'
 
 
 def dest_str(d):
-    """The destination string of a destination token (k<j> / n<i> / f<i>)."""
+    """The destination string of a destination token (k<j> / n<i> / f<i> / b)."""
+    if d == 'b':
+        return BUS
     if d[0] == 'k':
         return ':1.%d' % int(d[1:])
     if d[0] == 'n':
@@ -93,10 +104,18 @@ def dest_str(d):
 
 
 def tok_args(tok):
-    """Integer arguments of a token; for `u` / `g` tokens only the sender (the destination is a word)."""
+    """Integer arguments of a token; for `u` / `g` tokens only the sender (the destination is a word); none for
+    `c` and `a` (a new connection)."""
     if tok[0] in 'ug':
         return [int(tok[1:].split(',')[0])]
-    return [int(x) for x in tok[1:].split(',')] if tok != 'c' else []
+    if tok[0] in 'ca':
+        return []
+    return [int(x) for x in tok[1:].split(',')]
+
+
+def tok_dest(tok):
+    """The destination word of a `u` / `g` / `a` token."""
+    return tok[1:].split(',')[0 if tok[0] == 'a' else 1]
 
 
 # ----------------------------------------------------------------------------- the real bus
@@ -122,6 +141,7 @@ class World:
         self.factory.protocol = bus.BusProtocol
         self.factory.bus = self.bus
         self.protos = {}          # k -> BusProtocol (every connection ever made)
+        self.made = 0             # connections made so far (the harness's own count; `a` tokens number by it)
         self.raw = []             # (k or None, payload) in the order the bus sent things
         self.msgs = {}            # cache of call messages
         world = self
@@ -172,20 +192,25 @@ class World:
                                               signature=sig, body=body)
 
     # -- operations
-    def connect(self):
+    def authenticated(self):
+        """A new connection that has authenticated and not yet sent anything."""
         p = self.factory.buildProtocol(None)
         t = self.Transport()
         p.makeConnection(t)
         if self.mode == 'bytes':
             p.dataReceived(b'\0AUTH ANONYMOUS 616e6f6e\r\n')
             p.dataReceived(b'BEGIN\r\n')
-            p.dataReceived(self.call_msg('Hello').rawMessage)
         else:
-            # authenticated by fiat (`_authenticated` is pinned by the test suite), then the ordinary Hello through
-            # the public entry point: the library registers the connection and notes that Hello was called itself
+            # authenticated by fiat (`_authenticated` is pinned by the test suite); everything else goes through
+            # the public entry point: the library registers the connection and notes the Hello itself
             p._authenticated = True
             p.connectionAuthenticated()
-            p.dataReceived(self.call_msg('Hello').rawMessage)
+        self.made += 1
+        return p, t
+
+    def connect(self):
+        p, t = self.authenticated()
+        p.dataReceived(self.call_msg('Hello').rawMessage)
         k = self.kof(p)
         t.owner = k
         self.protos[k] = p
@@ -280,6 +305,30 @@ class World:
             if kind == 'c':
                 self.connect()
                 return []
+            if kind == 'a':
+                # a new connection whose FIRST message is an addressed one (no Hello): the bus names it on that
+                # message (and asks the transport to close when it is a method call; the message is processed)
+                parts = tok[1:].split(',')
+                dest = dest_str(parts[0])
+                p, t = self.authenticated()
+                k = self.made
+                t.owner = k
+                self.protos[k] = p
+                self.raw = []
+                m = self.addressed(dest, int(parts[1]) if len(parts) > 1 else 1)
+                p.dataReceived(m.rawMessage)
+                if self.kof(p) != k:
+                    return 'ERR:other-numbering'
+                return self.receivers(m, dest)
+            if kind == 'm':
+                c, j = [int(x) for x in tok[1:].split(',')]
+                rule = EAVES[j % len(EAVES)]
+                if self.mode == 'bytes':
+                    self.protos[c].dataReceived(self.call_msg('AddMatch', 's', [rule]).rawMessage)
+                else:
+                    self.bus.dbus_AddMatch(rule, dbusCaller=':1.%d' % c)
+                ev = self.events(None, 'x')
+                return ev
             if kind in 'ug':
                 parts = tok[1:].split(',')
                 c, dest = int(parts[0]), dest_str(parts[1])
@@ -419,15 +468,26 @@ class World:
                 self.bus.next_id)
 
     def restore(self, snap):
+        # IN PLACE: the objects the library made stay where the library put them.  Assigning fresh dicts
+        # (`p.busNames = dict(t)`) would give every connection an instance attribute of its own and so repair, for the
+        # rest of the enumeration, a table that the library keeps at class level (state-leak round, audit M2).
         names, clients, per, nid = snap
-        self.bus.busNames = {n: list(q) for n, q in names.items()}
-        self.bus.clients = dict(clients)
+        bn = self.bus.busNames
+        bn.clear()
+        bn.update({n: list(q) for n, q in names.items()})
+        cl = self.bus.clients
+        cl.clear()
+        cl.update(clients)
         for k in list(self.protos):
             if k not in per:
                 del self.protos[k]
+        self.made = len(self.protos)
         for k, (t, ic) in per.items():
-            self.protos[k].busNames = dict(t)
-            self.protos[k].isConnected = ic
+            d = self.protos[k].busNames
+            d.clear()
+            d.update(t)
+            if self.protos[k].isConnected != ic:
+                self.protos[k].isConnected = ic       # the library assigns this attribute per instance itself
         self.bus.next_id = nid
         self.raw = []
 
@@ -467,6 +527,8 @@ class Ref:
     def owner_of(self, d):
         """Who owns destination token d at this moment: a unique name is owned by the connection it was given to
         while that is connected, a well-known name by the first of its queue, any other name by nobody."""
+        if d == 'b':         # the bus itself: answered by the bus, not forwarded - whoever requested its name
+            return None
         if d[0] == 'k':
             return int(d[1:]) if int(d[1:]) in self.conn else None
         if d[0] == 'n':
@@ -482,8 +544,15 @@ class Ref:
             self.conn.add(self.next)
             self.next += 1
             return out
+        if kind == 'a':          # a new connection; its first message is an addressed one
+            self.conn.add(self.next)
+            self.next += 1
+            out['answer'] = self.owner_of(tok_dest(tok))
+            return out
         if kind in 'ug':         # an addressed message / a question: no effect on names; who is the owner now?
-            out['answer'] = self.owner_of(tok[1:].split(',')[1])
+            out['answer'] = self.owner_of(tok_dest(tok))
+            return out
+        if kind == 'm':          # AddMatch: no effect on names
             return out
         a = [int(x) for x in tok[1:].split(',')]
         c = a[0]
@@ -550,11 +619,11 @@ class Ref:
     def spec_field(self, tok, names):
         kind = tok[0]
         a = tok_args(tok)
-        if kind != 'c' and kind not in 'olxug' and a[0] not in self.conn:
+        if kind not in 'caolxugm' and a[0] not in self.conn:
             return 'REFUSED'
         r = self.step(tok)
         ev = ['%s%d:%d' % t for t in r['told']]
-        if kind == 'u':
+        if kind in 'ua':
             ev.append('D-' if r['answer'] is None else 'D%d' % r['answer'])
         if kind == 'g':
             ev.append('e%d:NameHasNoOwner' % a[0] if r['answer'] is None else 'o%d:%d' % (a[0], r['answer']))
@@ -683,7 +752,7 @@ def judge(world, ref, tok, events, names=(0, 1)):
         if kind in 'rd' and lq[:1] != rq[:1]:
             return ('wrong-successor', 'after the owner left, the owner is not the longest-waiting queued client',
                     {'queue': lq}, {'queue': rq})
-        if kind in 'xug':
+        if kind in 'xugam':
             return ('other-traffic-changes-names', 'a bus call that is not a name operation changed who owns / waits',
                     {'queue': lq}, {'queue': rq})
         return ('queue-mismatch', 'owner / listing of name %d differ from the reference table after %s' % (n, tok),
@@ -697,8 +766,8 @@ def judge(world, ref, tok, events, names=(0, 1)):
         return ('new-owner-not-told', 'the new owner is not sent NameAcquired', have, want)
     # 5. an addressed message is received by the connection owning the destination at that moment, by it only,
     #    once; when nobody owns the destination nobody receives it
-    if kind == 'u':
-        dest = dest_str(tok[1:].split(',')[1])
+    if kind in 'ua':
+        dest = dest_str(tok_dest(tok))
         got = []
         for e in events:
             if e[0] == 'D':
@@ -733,7 +802,7 @@ def judge(world, ref, tok, events, names=(0, 1)):
                 ans = int(v) if v.isdigit() else v
         want_ans = ('none',) if exp['answer'] is None else exp['answer']
         if ans != want_ans:
-            return ('owner-lookup-disagrees', '%s (GetNameOwner of %s) answers %r' % (tok, dest_str(tok[1:].split(',')[1]), ans),
+            return ('owner-lookup-disagrees', '%s (GetNameOwner of %s) answers %r' % (tok, dest_str(tok_dest(tok)), ans),
                     ans, want_ans)
     # 4. the answer of an explicit lookup / listing sent through the bus
     if kind in 'ol':
@@ -754,7 +823,7 @@ def judge(world, ref, tok, events, names=(0, 1)):
 
 def names_of(hist):
     ns = {int(t[1:].split(',')[1]) for t in hist if t[0] in 'qrol'}
-    ns |= {int(t[1:].split(',')[1][1:]) for t in hist if t[0] in 'ug' and t[1:].split(',')[1][0] == 'n'}
+    ns |= {int(tok_dest(t)[1:]) for t in hist if t[0] in 'uga' and tok_dest(t)[0] == 'n'}
     ns = sorted(ns)
     return tuple(ns) if ns else (0,)
 
@@ -802,7 +871,7 @@ def well_formed(hist):
     """Every operation is issued by a connection that is connected at that moment."""
     conn, nxt = set(), 1
     for tok in hist:
-        if tok == 'c':
+        if tok[0] in 'ca':
             conn.add(nxt)
             nxt += 1
             continue
@@ -829,7 +898,7 @@ def minimise(mode, hist, key):
     while changed:
         changed = False
         for i in range(len(hist) - 1, -1, -1):
-            if hist[i] == 'c':
+            if hist[i][0] in 'ca':
                 continue        # renumbering connections is not attempted
             h2 = hist[:i] + hist[i + 1:]
             if fails(h2):
